@@ -178,12 +178,16 @@ func (w *World) sweepListeners() {
 	}
 }
 
-// bindConn associates an endpoint with the accepted connection using its local port.
-func (w *World) bindConn(ep *Endpoint, local netip.AddrPort) {
+// bindConn associates an endpoint with the accepted connection that owns its 4-tuple (the kernel may
+// give two connections to different targets the same local port).
+func (w *World) bindConn(ep *Endpoint, local, remote netip.AddrPort) {
 	if ep.Conn != nil {
 		return
 	}
 	for _, ls := range w.Lis {
+		if ls.Addr != remote {
+			continue
+		}
 		for _, c := range ls.Conns {
 			if c.remote == local {
 				ep.Conn = c
